@@ -109,7 +109,7 @@ class Report:
         for r in self.rules:
             status = "ok"
             counted = len(r.units) if r.units is not None else r.instances
-            if counted < r.floor:
+            if counted < r.floor and not r.findings:  # a reported finding already explains instances that were not reached
                 errors.append(
                     f"rule {r.rule}: matched {counted} {'units' if r.units is not None else 'instances'}, floor is "
                     f"{r.floor} (anchor vanished or idiom not recognised)"
